@@ -286,6 +286,13 @@ fn moments_strategy() -> impl Strategy<Value = MomentsCase> {
 // ---------------------------------------------------------------------------------------
 // (d) per-axis weighted sum / mean / var / std vs the whole-array routine on each lane
 
+/// positions (mod len) whose data element is replaced by +inf / NaN (float types only)
+#[derive(Clone, Debug, Serialize, Deserialize, Hash, Default)]
+pub struct NonFinite {
+    pub inf_at: Vec<u16>,
+    pub nan_at: Vec<u16>,
+}
+
 #[derive(Clone, Debug, Serialize, Deserialize, Hash)]
 pub struct AxisWCase {
     /// 0 = f64, 1 = f32, 2 = i64
@@ -302,6 +309,8 @@ pub struct AxisWCase {
     pub scale_pow: u8,
     /// ddof numerator / 4
     pub ddof4: u8,
+    #[serde(default)]
+    pub non_finite: NonFinite,
 }
 
 fn wlayout(step: usize, rev: bool) -> LayoutSpec {
@@ -312,7 +321,17 @@ macro_rules! axis_float_check {
     ($c:expr, $t:ty, $u:expr) => {{
         let c: &AxisWCase = $c;
         let sc = (2.0 as $t).powi(-(c.scale_pow as i32 % 8));
-        let data: Vec<$t> = c.data.iter().map(|&v| v as $t * sc).collect();
+        let mut data: Vec<$t> = c.data.iter().map(|&v| v as $t * sc).collect();
+        if !data.is_empty() {
+            let len = data.len();
+            for &p in &c.non_finite.inf_at {
+                data[p as usize % len] = <$t>::INFINITY;
+            }
+            for &p in &c.non_finite.nan_at {
+                data[p as usize % len] = <$t>::NAN;
+            }
+        }
+        let has_non_finite = data.iter().any(|x| !x.is_finite());
         let n = c.shape[c.axis];
         let weights: Vec<$t> = c.weights.iter().take(n).map(|&w| w as $t * (0.25 as $t)).collect();
         let laid = Laid::new(&c.layout, &c.shape, &data);
@@ -339,10 +358,11 @@ macro_rules! axis_float_check {
             let lane: Vec<$t> = idx.iter().map(|&i| data[i]).collect();
             let la = ndarray::Array1::from(lane.clone());
             let whole = la.weighted_sum(&wo).unwrap();
-            let tabs: f64 = lane.iter().zip(&weights).map(|(&x, &w)| (x as f64 * w as f64).abs()).sum();
+            let tabs: f64 = lane.iter().zip(&weights).map(|(&x, &w)| (x as f64 * w as f64).abs()).filter(|t| t.is_finite()).sum();
             let tol = 2.0 * gamma * tabs * 1.001 + f64::MIN_POSITIVE;
-            if whole.to_bits() != flat[l].to_bits() { bit_equal = false; }
-            ensure!(((whole as f64) - (flat[l] as f64)).abs() <= tol, "tolerance", "weighted_sum_axis lane {} = {:e}, weighted_sum of that lane = {:e} (tol {:e}); lane {:?} weights {:?}", l, flat[l], whole, tol, lane, weights);
+            if whole.to_bits() != flat[l].to_bits() && !(whole.is_nan() && flat[l].is_nan()) { bit_equal = false; }
+            let same_special = (whole.is_nan() && flat[l].is_nan()) || (whole.is_infinite() && whole == flat[l]);
+            ensure!(same_special || ((whole as f64) - (flat[l] as f64)).abs() <= tol, "tolerance", "weighted_sum_axis lane {} = {:e}, weighted_sum of that lane = {:e} (tol {:e}); lane {:?} weights {:?}", l, flat[l], whole, tol, lane, weights);
         }
         if wsum > 0.0 && n > 0 {
             let m_axis = match catch(|| v.weighted_mean_axis(ax, &wv)) {
@@ -355,12 +375,13 @@ macro_rules! axis_float_check {
                 let lane: Vec<$t> = idx.iter().map(|&i| data[i]).collect();
                 let la = ndarray::Array1::from(lane.clone());
                 let whole = la.weighted_mean(&wo).unwrap();
-                let tabs: f64 = lane.iter().zip(&weights).map(|(&x, &w)| (x as f64 * w as f64).abs()).sum();
+                let tabs: f64 = lane.iter().zip(&weights).map(|(&x, &w)| (x as f64 * w as f64).abs()).filter(|t| t.is_finite()).sum();
                 let tol = 2.0 * (gamma + 4.0 * u) * (tabs / wsum) * 2.0 * 1.001 + f64::MIN_POSITIVE;
-                if whole.to_bits() != flat[l].to_bits() { bit_equal = false; }
-                ensure!(((whole as f64) - (flat[l] as f64)).abs() <= tol, "tolerance", "weighted_mean_axis lane {} = {:e}, weighted_mean of that lane = {:e} (tol {:e}); lane {:?} weights {:?}", l, flat[l], whole, tol, lane, weights);
+                if whole.to_bits() != flat[l].to_bits() && !(whole.is_nan() && flat[l].is_nan()) { bit_equal = false; }
+                let same_special = (whole.is_nan() && flat[l].is_nan()) || (whole.is_infinite() && whole == flat[l]);
+                ensure!(same_special || ((whole as f64) - (flat[l] as f64)).abs() <= tol, "tolerance", "weighted_mean_axis lane {} = {:e}, weighted_mean of that lane = {:e} (tol {:e}); lane {:?} weights {:?}", l, flat[l], whole, tol, lane, weights);
             }
-            if wsum - (ddof as f64) > 0.25 {
+            if wsum - (ddof as f64) > 0.25 && !has_non_finite {
                 let v_axis = match catch(|| v.weighted_var_axis(ax, &wv, ddof)) {
                     Ok(Ok(a)) => a,
                     Ok(Err(e)) => fail!("error-kind", "weighted_var_axis returned Err({:?})", e),
@@ -453,7 +474,8 @@ pub fn check_axis_weighted(c: &AxisWCase) -> CheckResult {
         .class(c.layout.class())
         .class_if(bit_equal, "axis-vs-lane:bit-identical")
         .class_if(!bit_equal, "axis-vs-lane:within-budget-only")
-        .class_if(c.w_step > 1 || c.w_rev, "weights:strided-view"))
+        .class_if(c.w_step > 1 || c.w_rev, "weights:strided-view")
+        .class_if(!c.non_finite.inf_at.is_empty() || !c.non_finite.nan_at.is_empty(), "data:non-finite"))
 }
 
 fn axisw_strategy() -> impl Strategy<Value = AxisWCase> {
@@ -475,9 +497,13 @@ fn axisw_strategy() -> impl Strategy<Value = AxisWCase> {
                 any::<bool>(),
                 0u8..8,
                 0u8..5,
+                prop_oneof![
+                    5 => Just(NonFinite::default()),
+                    1 => (proptest::collection::vec(any::<u16>(), 0..3), proptest::collection::vec(any::<u16>(), 0..2)).prop_map(|(inf_at, nan_at)| NonFinite { inf_at, nan_at }),
+                ],
             )
         })
-        .prop_map(|((ty, shape, axis, layout), data, weights, w_step, w_rev, scale_pow, ddof4)| AxisWCase { ty, shape, axis, layout, w_step, w_rev, data, weights, scale_pow, ddof4 })
+        .prop_map(|((ty, shape, axis, layout), data, weights, w_step, w_rev, scale_pow, ddof4, non_finite)| AxisWCase { ty, shape, axis, layout, w_step, w_rev, data, weights, scale_pow, ddof4, non_finite })
 }
 
 // ---------------------------------------------------------------------------------------
